@@ -15,7 +15,7 @@ func init() {
 	register(&propSpec{
 		ID: "C07",
 		Explanation: "Decides structural necessary conditions of fee/size authoring: (R1) no dropped term: every arithmetic definition in the size/fee estimators reaches the result (a computed-and-unused value is a dropped term); " +
-			"(R2) the estimators' output-count varint is fed the count that includes the optional change output, the input-count varints sum all input-kind parameters, and every input-kind parameter enters the base size (and, for witness kinds, the witness weight) with its own size constant; " +
+			"(R2) the estimators' output-count varint is fed the count that includes the optional change output, the input-count varints sum all input-kind parameters, and every input-kind parameter enters the base size (and, for witness kinds, the witness weight) with its own size constant; the change output is sized as a serialized output (8 + compact-size prefix + script); " +
 			"(R3) decision shape of NewUnsignedTransaction: insufficient funds only on inputAmount < target+fee; ONE fee value (the fee for the size estimated from the counted input kinds) is the one compared with the remainder, re-targeted on retry and subtracted for the change amount; " +
 			"the change output is appended only when non-zero and not dust at the default relay fee, to a capacity-clamped copy of the caller's slice (the caller's backing array is never written); the input-kind classifiers of author, signer and size estimator test the same predicates in the same precedence; " +
 			"(R4) txToOutputs passes the requested fee rate unchanged and the change source's script size matches the change address type for all address types. NOT decided: the numeric inequality fee >= rate*vsize for all inputs, the worst-case constants themselves.",
@@ -163,6 +163,8 @@ func runC07(c *Ctx) {
 	checkInputSourceLifetime(c, "C07-R4")
 	checkFixedSelectionSourceIsStateless(c, "C07-R4")
 	checkOutputSizesFromSerializer(c, "C07-R2")
+	checkP2PKHSigScriptCoversHeldKeys(c, "C07-R2")
+	checkDustTestCoversSerializedOutput(c, "C07-R3")
 }
 
 // countsChange: v is (a conversion of) a phi merging len(txOuts) and len(txOuts)+1.
@@ -183,6 +185,97 @@ func countsChange(p *Program, v ssa.Value, fn *ssa.Function) bool {
 	// "+1*call:len(...) +0" and "+1*call:len(...) +1" over the same slice parameter
 	a, b := forms[0], forms[1]
 	return strings.HasPrefix(a, "+1*call:len(") && strings.HasSuffix(a, " +0") && strings.HasSuffix(b, " +1") && a[:len(a)-3] == b[:len(b)-3]
+}
+
+// changeHelperResults: results of a private same-package helper that is handed the change script size parameter of fn
+// (`size, count := estimateChangeOutput(changeScriptSize)`): atom name -> the extracted value.
+func changeHelperResults(p *Program, fn *ssa.Function, changeParam int) map[string]*ssa.Extract {
+	out := map[string]*ssa.Extract{}
+	for _, b := range fn.Blocks {
+		for _, ins := range b.Instrs {
+			ex, ok := ins.(*ssa.Extract)
+			if !ok {
+				continue
+			}
+			call, ok := ex.Tuple.(*ssa.Call)
+			if !ok {
+				continue
+			}
+			h := call.Call.StaticCallee()
+			if h == nil || len(h.Blocks) == 0 || fnPkgPath(h) != fnPkgPath(fn) || h.Object() == nil || h.Object().Exported() {
+				continue
+			}
+			for _, a := range call.Call.Args {
+				if prm, ok := stripConv(a).(*ssa.Parameter); ok && paramIndex(fn, prm) == changeParam {
+					out[p.atomName(ex, 0)] = ex
+				}
+			}
+		}
+	}
+	return out
+}
+
+// countsChangeViaHelper: v is len(txOuts) + k where k is the 0-or-1 "a change output is added" result of the change
+// helper (1 exactly on the paths where the helper's size result is the change output size, i.e. not the constant 0).
+func countsChangeViaHelper(p *Program, v ssa.Value, fn *ssa.Function, changeParam int) bool {
+	l := p.linearize(v, 0)
+	if l.Konst != 0 || len(l.Coef) != 2 {
+		return false
+	}
+	res := changeHelperResults(p, fn, changeParam)
+	var ind *ssa.Extract
+	lens := 0
+	for k, coef := range l.Coef {
+		if coef != 1 {
+			return false
+		}
+		if strings.HasPrefix(k, "call:len(") {
+			lens++
+		} else if ex, ok := res[k]; ok {
+			ind = ex
+		}
+	}
+	if lens != 1 || ind == nil {
+		return false
+	}
+	h := ind.Tuple.(*ssa.Call).Call.StaticCallee()
+	// at every return of the helper the indicator is 0 or 1, and it is 1 exactly when some other result is non-zero
+	sawOne := false
+	for _, b := range h.Blocks {
+		r, ok := b.Instrs[len(b.Instrs)-1].(*ssa.Return)
+		if !ok {
+			continue
+		}
+		vals := []ssa.Value{r.Results[ind.Index]}
+		var others [][]ssa.Value
+		if ph, ok := r.Results[ind.Index].(*ssa.Phi); ok {
+			vals = ph.Edges
+			for i, o := range r.Results {
+				if i == ind.Index {
+					continue
+				}
+				if oph, ok := o.(*ssa.Phi); ok && oph.Block() == ph.Block() {
+					others = append(others, oph.Edges)
+				}
+			}
+		}
+		for ei, e := range vals {
+			k, isK := constInt(e)
+			if !isK || (k != 0 && k != 1) {
+				return false
+			}
+			if k == 1 {
+				sawOne = true
+			}
+			for _, oe := range others {
+				ok0, isK0 := constInt(oe[ei])
+				if (isK0 && ok0 == 0) != (k == 0) {
+					return false
+				}
+			}
+		}
+	}
+	return sawOne
 }
 
 func checkVirtualSize(c *Ctx, fn *ssa.Function) {
@@ -215,7 +308,7 @@ func checkVirtualSize(c *Ctx, fn *ssa.Function) {
 			inputVar = true
 		case l == witKinds.String():
 			witVar = true
-		case countsChange(p, arg, fn):
+		case countsChange(p, arg, fn), countsChangeViaHelper(p, arg, fn, 5):
 			outVar = true
 		}
 	}
@@ -278,8 +371,13 @@ func checkVirtualSize(c *Ctx, fn *ssa.Function) {
 				if strings.HasPrefix(k, "call:") && !strings.HasPrefix(k, "call:SumOutputSerializeSizes") && !strings.HasPrefix(k, "call:VarIntSerializeSize") && strings.Contains(k, "param#5") {
 					hasChange = true
 				}
+				// ... one of the results of such a helper (size and count returned together)
+				if _, ok := changeHelperResults(p, fn, 5)[k]; ok && bl.Coef[k] == 1 {
+					hasChange = true
+				}
 			}
 			c.Check("C07-R2", "base-size-includes-change-output", r.Pos(), hasChange, "base size lacks the change output size")
+			checkChangeOutputSizeFormula(c, fn, base, 5)
 			q, ok := quo.(*ssa.BinOp)
 			if !ok || q.Op != token.QUO {
 				c.Check("C07-R2", "witness-rounded-up", r.Pos(), false, "witness weight is not divided by the witness scale factor")
@@ -572,15 +670,21 @@ func checkAuthor(c *Ctx, fn *ssa.Function) {
 	checkInputSizeConstantsAgree(c)
 	checkFeeFormula(c)
 	// the change output value: NewTxOut(int64(changeAmount), script)
+	// (built in NewUnsignedTransaction itself or in a private part it hands the change amount to: the amount is then
+	// followed to the argument of the part's only call site, the guards around the append are read where they stand)
 	var newTxOut *ssa.Call
-	for _, call := range callsNamed(fn, "NewTxOut") {
-		newTxOut = call
+	cf := fn
+	for _, g := range p.regionTop(fn) {
+		for _, call := range callsNamed(g, "NewTxOut") {
+			newTxOut, cf = call, g
+		}
 	}
 	if newTxOut == nil {
 		c.Check("C07-R3", "change-output-construction", fn.Pos(), false, "NewUnsignedTransaction builds no change output (undecided)")
 		return
 	}
-	chg := stripConv(newTxOut.Call.Args[0])
+	chgLocal := stripConv(newTxOut.Call.Args[0])
+	chg := stripConv(p.resolveParam(chgLocal))
 	// changeAmount = inputAmount - targetAmount - FEE
 	sub, ok := chg.(*ssa.BinOp)
 	var fee, rest ssa.Value
@@ -752,7 +856,7 @@ func checkAuthor(c *Ctx, fn *ssa.Function) {
 	c.Floor("C07-R3", "insufficient-funds returns", nIns, 1)
 	// the change append: guarded by amount != 0 and not dust at DefaultRelayFeePerKb, onto a capacity-clamped slice
 	nApp := 0
-	for _, b := range fn.Blocks {
+	for _, b := range cf.Blocks {
 		for _, ins := range b.Instrs {
 			call, ok := ins.(*ssa.Call)
 			if !ok {
@@ -767,7 +871,7 @@ func checkAuthor(c *Ctx, fn *ssa.Function) {
 			fromOutputs := false
 			sl := &Slicer{P: p}
 			for _, o := range sl.Origins(base) {
-				if prm, ok := o.(*ssa.Parameter); ok && paramIndex(fn, prm) == 0 {
+				if prm, ok := stripConv(p.resolveParam(o)).(*ssa.Parameter); ok && prm.Parent() == fn && paramIndex(fn, prm) == 0 {
 					fromOutputs = true
 				}
 			}
@@ -780,17 +884,17 @@ func checkAuthor(c *Ctx, fn *ssa.Function) {
 				strings.HasPrefix(p.linearize(s3.Max, 0).String(), "+1*call:len(")
 			c.Check("C07-R3", "change-appended-to-clamped-copy", call.Pos(), clamped,
 				"the change output is appended to the caller's output slice without clamping its capacity (outputs[:l:l]): the caller's backing array can be overwritten, so the requested outputs do not stay unchanged")
-			okNZ := !reachableAvoiding(fn, nil, call, func(from *ssa.BasicBlock, si int) bool {
+			okNZ := !reachableAvoiding(cf, nil, call, func(from *ssa.BasicBlock, si int) bool {
 				iff, ok := from.Instrs[len(from.Instrs)-1].(*ssa.If)
 				if !ok {
 					return false
 				}
 				f, okf := p.cmpForm(iff.Cond, si == 0)
-				cl := p.linearize(chg, 0)
+				cl := p.linearize(chgLocal, 0)
 				return okf && f.Rel == "!=" && (cl.String() == f.L.String() || cl.scale(-1).String() == f.L.String())
 			})
 			c.Check("C07-R3", "no-zero-change", call.Pos(), okNZ, "a zero-value change output can be added")
-			okDust := !reachableAvoiding(fn, nil, call, func(from *ssa.BasicBlock, si int) bool {
+			okDust := !reachableAvoiding(cf, nil, call, func(from *ssa.BasicBlock, si int) bool {
 				f := edgeFactOf(from, si)
 				if f == nil || f.Kind != "false" {
 					return false
@@ -1106,4 +1210,207 @@ func checkOutputSizesFromSerializer(c *Ctx, rule string) {
 		}
 	}
 	c.Floor(rule, "output loops in SumOutputSerializeSizes", n, 1)
+}
+
+// additiveLeaves: the summands of an integer expression built with + (conversions stripped).
+func additiveLeaves(v ssa.Value, depth int) []ssa.Value {
+	v = stripConv(v)
+	if bo, ok := v.(*ssa.BinOp); ok && bo.Op == token.ADD && depth < 12 {
+		return append(additiveLeaves(bo.X, depth+1), additiveLeaves(bo.Y, depth+1)...)
+	}
+	return []ssa.Value{v}
+}
+
+// checkChangeOutputSizeFormula: the change output enters the base size as a serialized TxOut: 8 bytes of value, the
+// compact-size prefix of the script length and the script itself — 8 + VarIntSerializeSize(changeScriptSize) +
+// changeScriptSize — whenever changeScriptSize > 0. The summand is found by shape (the term of the base size that is
+// zero on one path and something else otherwise: a local merged at an `if`, or the result of a private helper that is
+// handed the change script size), and its non-zero form is read in the function that computes it.
+func checkChangeOutputSizeFormula(c *Ctx, fn *ssa.Function, base ssa.Value, changeParam int) {
+	p := c.P
+	type cand struct {
+		in  *ssa.Function
+		idx int
+		e   ssa.Value
+	}
+	var cands []cand
+	nonZeroOf := func(v ssa.Value) (ssa.Value, bool) {
+		ph, ok := stripConv(v).(*ssa.Phi)
+		if !ok {
+			return nil, false
+		}
+		var nz []ssa.Value
+		zero := false
+		for _, e := range ph.Edges {
+			if k, ok := constInt(e); ok && k == 0 {
+				zero = true
+				continue
+			}
+			nz = append(nz, e)
+		}
+		if zero && len(nz) == 1 {
+			return nz[0], true
+		}
+		return nil, false
+	}
+	helperOf := func(call *ssa.Call) (*ssa.Function, int) {
+		h := call.Call.StaticCallee()
+		if h == nil || len(h.Blocks) == 0 || fnPkgPath(h) != fnPkgPath(fn) || h.Object() == nil || h.Object().Exported() {
+			return nil, -1
+		}
+		for i, a := range call.Call.Args {
+			if prm, ok := stripConv(a).(*ssa.Parameter); ok && paramIndex(fn, prm) == changeParam {
+				return h, i
+			}
+		}
+		return nil, -1
+	}
+	for _, leaf := range additiveLeaves(base, 0) {
+		switch x := leaf.(type) {
+		case *ssa.Phi:
+			if e, ok := nonZeroOf(x); ok {
+				cands = append(cands, cand{fn, changeParam, e})
+			}
+		case *ssa.Call:
+			if h, i := helperOf(x); h != nil && h.Signature.Results().Len() == 1 {
+				for _, b := range h.Blocks {
+					r, ok := b.Instrs[len(b.Instrs)-1].(*ssa.Return)
+					if !ok {
+						continue
+					}
+					if k, isK := constInt(r.Results[0]); isK && k == 0 {
+						continue
+					}
+					if e, ok := nonZeroOf(r.Results[0]); ok {
+						cands = append(cands, cand{h, i, e})
+					} else {
+						cands = append(cands, cand{h, i, r.Results[0]})
+					}
+				}
+			}
+		case *ssa.Extract:
+			if call, ok := x.Tuple.(*ssa.Call); ok {
+				if h, i := helperOf(call); h != nil {
+					for _, b := range h.Blocks {
+						r, ok := b.Instrs[len(b.Instrs)-1].(*ssa.Return)
+						if !ok {
+							continue
+						}
+						if k, isK := constInt(r.Results[x.Index]); isK && k == 0 {
+							continue
+						}
+						if e, ok := nonZeroOf(r.Results[x.Index]); ok {
+							cands = append(cands, cand{h, i, e})
+						} else {
+							cands = append(cands, cand{h, i, r.Results[x.Index]})
+						}
+					}
+				}
+			}
+		}
+	}
+	if len(cands) != 1 {
+		c.Check("C07-R2", "change-output-size-is-value-prefix-script", fn.Pos(), false,
+			fmt.Sprintf("the change output's summand of the base size could not be identified (%d candidates; undecided)", len(cands)))
+		return
+	}
+	cd := cands[0]
+	l := p.linearize(cd.e, 0)
+	prm := fmt.Sprintf("param#%d", cd.idx)
+	okF := l.Konst == 8 && len(l.Coef) == 2 && l.Coef[prm] == 1 && l.Coef["call:VarIntSerializeSize(+1*"+prm+" +0)"] == 1
+	c.Check("C07-R2", "change-output-size-is-value-prefix-script", cd.e.Pos(), okF,
+		"the change output is not sized as a serialized output, 8 + VarIntSerializeSize(changeScriptSize) + changeScriptSize (found "+l.String()+"): the estimate is short and the fee falls below the requested rate")
+}
+
+// checkP2PKHSigScriptCoversHeldKeys: the worst-case signature script of a P2PKH input pushes the signature and the
+// serialized public key. The address manager can hold keys that serialize UNCOMPRESSED (65 bytes): its managed-address
+// constructors take a `compressed` flag, and a call site that passes anything but the constant true (the private-key
+// import passes the WIF's own flag) creates such addresses. If one exists, the size constant must cover a 65-byte key:
+// 1 + 73 + 1 + 65. With the 33-byte figure every input spending such a key is under-estimated by 32 bytes and the fee
+// falls below the requested rate.
+func checkP2PKHSigScriptCoversHeldKeys(c *Ctx, rule string) {
+	p := c.P
+	n, uncompressedPossible := 0, ""
+	for _, fn := range p.FuncsIn("waddrmgr") {
+		for _, ci := range callsOf(fn) {
+			call, ok := ci.(*ssa.Call)
+			if !ok {
+				continue
+			}
+			g := call.Call.StaticCallee()
+			if g == nil || fnPkgPath(g) != fnPkgPath(fn) {
+				continue
+			}
+			idx := -1
+			for i, prm := range g.Params {
+				if prm.Name() == "compressed" && isBoolType(prm.Type()) {
+					idx = i
+				}
+			}
+			if idx < 0 || idx >= len(call.Call.Args) {
+				continue
+			}
+			n++
+			a := stripConv(call.Call.Args[idx])
+			if k, isK := a.(*ssa.Const); isK && k.Value != nil && k.Value.String() == "true" {
+				continue
+			}
+			// a flag merely passed on from the caller's own `compressed` parameter is decided at that caller's sites
+			if prm, ok := a.(*ssa.Parameter); ok && prm.Name() == "compressed" {
+				continue
+			}
+			if uncompressedPossible == "" {
+				uncompressedPossible = fnName(fn) + " -> " + g.Name()
+			}
+		}
+	}
+	c.Floor(rule, "call sites passing a key-compression flag to a managed-address constructor", n, 3)
+	sz, ok := constInPkg(p, "wallet/txsizes", "RedeemP2PKHSigScriptSize")
+	if !ok {
+		c.Unresolved(rule, "txsizes.RedeemP2PKHSigScriptSize")
+		return
+	}
+	const need = 1 + 73 + 1 + 65
+	c.Check(rule, "p2pkh-sigscript-size-covers-uncompressed-keys", 0, uncompressedPossible == "" || sz >= need,
+		fmt.Sprintf("RedeemP2PKHSigScriptSize = %d assumes a 33-byte compressed public key, but the wallet holds keys that serialize uncompressed (%s passes a non-constant compression flag): an input spending one carries a 65-byte key push (%d bytes of script), so it is under-estimated by %d bytes and the fee falls below the requested rate", sz, uncompressedPossible, need, need-sz))
+}
+
+// checkDustTestCoversSerializedOutput: an output is dust when its value is below three times the cost of creating and
+// spending it, and the cost of creating it is its whole serialized size — 8 bytes of value, the compact-size prefix and
+// the script. The wallet's dust test either asks the node policy's own test (mempool.IsDust / GetDustThreshold) or
+// computes the size through the output's serializer (TxOut.SerializeSize, or value + VarIntSerializeSize + script). A
+// local formula that starts from the script length alone puts every threshold 27 sat too low: a change output in that
+// window is added although the network treats it as dust.
+func checkDustTestCoversSerializedOutput(c *Ctx, rule string) {
+	fn := pkgFn(c, rule, "wallet/txrules", "IsDustOutput")
+	if fn == nil {
+		return
+	}
+	ok := false
+	var walk func(f *ssa.Function, depth int)
+	seen := map[*ssa.Function]bool{}
+	walk = func(f *ssa.Function, depth int) {
+		if seen[f] || depth > 3 {
+			return
+		}
+		seen[f] = true
+		for _, ci := range callsOf(f) {
+			cc := ci.Common()
+			name := calleeShort(cc)
+			if g := cc.StaticCallee(); g != nil {
+				if g.Pkg != nil && strings.HasSuffix(g.Pkg.Pkg.Path(), "/mempool") && (name == "IsDust" || name == "GetDustThreshold") {
+					ok = true
+				}
+				if name == "SerializeSize" || name == "VarIntSerializeSize" {
+					ok = true
+				}
+				if fnPkgPath(g) == fnPkgPath(fn) && len(g.Blocks) > 0 {
+					walk(g, depth+1)
+				}
+			}
+		}
+	}
+	walk(fn, 0)
+	c.Check(rule, "dust-test-covers-serialized-output", fn.Pos(), ok,
+		"IsDustOutput neither asks the node policy's dust test nor sizes the output through its serializer: a threshold computed from the script length alone forgets the 9 bytes of value and script-length prefix, so change outputs up to 27 sat below the real dust limit are added to authored transactions")
 }
